@@ -50,6 +50,59 @@ type c19Case struct {
 	MsgHex  string      `json:"msg_hex,omitempty"`
 	Msg     string      `json:"msg,omitempty"`
 	Cache   bool        `json:"cache,omitempty"`
+	Burst   int         `json:"burst,omitempty"` // busy-window part: number of samples added within one window
+}
+
+// c19Burst: one small sample followed by n larger ones, all within one window
+// length; every one of them is still live, so the exported minimum is the
+// first sample, the count is n+1 and the average is exact.
+func c19Burst(n int, viaStats bool) (key, msg string) {
+	life := 120 * time.Second
+	var sum int64 = 1
+	val := func(i int) int64 { return 100 + int64(i%7) }
+	t0 := time.Now()
+	if viaStats {
+		st := metrics.NewStats()
+		if err := st.VerifRegisterWindow("busy", life); err != nil {
+			return "", ""
+		}
+		st.AddSample("busy", 1)
+		for i := 0; i < n; i++ {
+			st.AddSample("busy", val(i))
+			sum += val(i)
+		}
+		got := st.Get()
+		if time.Since(t0) > life-10*time.Second {
+			return "", "" // too slow to say anything
+		}
+		if got["busy.min"] != 1 || got["busy.max"] != 106 || got["busy.avg"] != sum/int64(n+1) {
+			return "busy-window-forgot-samples", fmt.Sprintf("1 and then %d samples 100..106 added within %v (window %v): exported min/max/avg = %d/%d/%d, want 1/106/%d", n, time.Since(t0), life, got["busy.min"], got["busy.max"], got["busy.avg"], sum/int64(n+1))
+		}
+		return "", ""
+	}
+	w, err := metrics.NewWindowForVerif(life)
+	if err != nil {
+		return "", ""
+	}
+	defer w.Stop()
+	w.Add(1)
+	for i := 0; i < n; i++ {
+		w.Add(val(i))
+	}
+	got := w.Samples()
+	if time.Since(t0) > life-10*time.Second {
+		return "", ""
+	}
+	has1 := false
+	for _, v := range got {
+		if v == 1 {
+			has1 = true
+		}
+	}
+	if len(got) != n+1 || !has1 {
+		return "busy-window-forgot-samples", fmt.Sprintf("1 and then %d samples added within %v (window %v): the window reports %d samples, the first one present: %v", n, time.Since(t0), life, len(got), has1)
+	}
+	return "", ""
 }
 
 // slack granted to the cleaner: its 1 s tick plus scheduling delay
@@ -265,7 +318,7 @@ func c19Setup() {
 			st, lg := kit.NewSchedStats(nil), &c19Logger{}
 			ho := kit.HandlerOpts{Stats: st, Logger: lg}
 			if cache {
-				ho.Cache = dnsserver.CacheConfig{Enabled: true, LRUSize: 16}
+				ho.Cache = dnsserver.CacheConfig{Enabled: true, LRUSize: 16, WRSTimeout: 1}
 			}
 			h, err := kit.OpenHandler(p, b, ho)
 			if err != nil {
@@ -470,6 +523,12 @@ func TestC19(t *testing.T) {
 					kit.Fail(t, "C19", key, c, "%s", msg)
 				}
 			}
+		case "busy-window":
+			for _, via := range []bool{false, true} {
+				if key, msg := c19Burst(c.Burst, via); key != "" {
+					kit.Fail(t, "C19", key, c, "%s", msg)
+				}
+			}
 		case "counters":
 			var wire []byte
 			fmt.Sscanf(c.MsgHex, "%x", &wire)
@@ -544,6 +603,23 @@ func TestC19(t *testing.T) {
 		kit.EvalN(int64(n - 1))
 		kit.Sample(c19Case{Part: "window", History: &hs[0]})
 	}))
+	// (a') a busy window: far more samples than any bounded buffer would hold,
+	// all of them live
+	if kit.Shard() == 2%kit.NShards() || kit.Thorough() {
+		kit.SetRapid(kit.Pick(3, 6))
+		rapid.Check(t, kit.Prop("C19", func(t *rapid.T) {
+			n := rapid.SampledFrom([]int{70000, 131073, 200000, 300000, 1100000}).Draw(t, "burst") + rapid.IntRange(0, 9).Draw(t, "burst-jitter")
+			via := rapid.Bool().Draw(t, "burst-via-stats")
+			c := c19Case{Part: "busy-window", Burst: n}
+			kit.Case(c)
+			if key, msg := c19Burst(n, via); key != "" {
+				kit.Fail(t, "C19", key, c, "%s", msg)
+			}
+			kit.Class(fmt.Sprintf("busy-window:%dk", n/1000))
+			kit.NonTrivial(fmt.Sprintf("busy-window|%d|%v", n, via))
+			kit.Sample(c)
+		}))
+	}
 	// (b) counters and logger over all response classes
 	for _, s := range c13SeedMsgs() {
 		if wire, err := s.Pack(); err == nil {
@@ -551,6 +627,37 @@ func TestC19(t *testing.T) {
 				c19CheckQuery(t, hd, wire, "10.1.2.3", true)
 				kit.Eval()
 			}
+		}
+	}
+	// (b') a cached weighted answer (kept for WRSTimeout = 1 s) that has expired
+	// is a miss: exactly one of hit / missed / expired, and not hit
+	if kit.Shard() == 3%kit.NShards() || kit.Thorough() {
+		q := new(dns.Msg)
+		q.SetQuestion("www.example.com.", dns.TypeA)
+		wire, _ := q.Pack()
+		for _, hd := range c19Handlers {
+			if hd.cache {
+				c19CheckQuery(t, hd, wire, "10.1.2.3", true)
+				c19CheckQuery(t, hd, wire, "10.1.2.3", true)
+			}
+		}
+		time.Sleep(2200 * time.Millisecond)
+		for _, hd := range c19Handlers {
+			if !hd.cache {
+				continue
+			}
+			before := hd.st.Snapshot()
+			c19CheckQuery(t, hd, wire, "10.1.2.3", true)
+			d := delta(before, hd.st.Snapshot())
+			if d["DNS_cache.hit"] != 0 {
+				kit.Fail(t, "C19", "expired-entry-counted-as-hit", c19Case{Part: "counters", Backend: hd.name, MsgHex: fmt.Sprintf("%x", wire), Cache: true, Detail: "third query, 2.2 s after the entry was cached with a lifetime of 1 s"},
+					"%s: www.example.com A asked 2.2 s after its weighted answer was cached for 1 s: DNS_cache.hit +%d, expired +%d, missed +%d", hd.name, d["DNS_cache.hit"], d["DNS_cache.expired"], d["DNS_cache.missed"])
+			}
+			if d["DNS_cache.expired"] == 1 {
+				kit.Class("counters:expired-cache-entry")
+				kit.NonTrivial("expired-cache-entry|" + hd.name)
+			}
+			kit.EvalN(3)
 		}
 	}
 	kit.SetRapid(kit.N(80000, 2000000))
